@@ -1,25 +1,42 @@
 package main
 
 import (
+	"bytes"
 	"encoding/json"
 	"fmt"
 	"math/big"
 	"math/rand/v2"
 
 	"github.com/onflow/crypto"
+	"github.com/onflow/crypto/hash"
 )
 
 type c03Leaf struct {
-	Kind  string `json:"kind"`  // good | badsig-header | badsig-torsion | badsig-length | idkey
+	// good | idkey | 48-byte strings that are no G1 encoding: badsig-header | badsig-torsion | badsig-order3 (the
+	// point (0, 2) of order 3) | badsig-plus-order3 | badsig-infstray (C0 with a stray byte) | badsig-xgep (x = p)
+	// | badsig-offcurve; wrong lengths (api mode only): badsig-length (47) | badsig-nil | badsig-empty |
+	// badsig-long (49) | badsig-96
+	Kind  string `json:"kind"`
 	Sigma string `json:"sigma"` // scalar the signature is made with (hex, 32 bytes); may be 0 = identity signature
 	X     string `json:"x"`     // key scalar; 0 = the identity public key
+	// Src: route by which the key OBJECT is obtained (see c01RoutePk / c02IdentityKey); "" = PublicKey() of the
+	// decoded private key, resp. the package's identity constant
+	Src string `json:"src,omitempty"`
 }
 type c03In struct {
 	Mode   string    `json:"mode"` // hook | api
 	Leaves []c03Leaf `json:"leaves"`
 	Seed   string    `json:"seed,omitempty"` // hook: 16 bytes per leaf
 	Salt   uint64    `json:"salt"`
+	// message and hasher (defaults: tag "batch", message "c03 message"); Out = fixed-output hasher
+	Tag    string `json:"tag,omitempty"`
+	Msg    string `json:"msg,omitempty"`
+	NilMsg bool   `json:"nil_msg,omitempty"`
+	Out    string `json:"out,omitempty"`
 }
+
+// c03WrongLength: kinds whose signature has not 48 bytes (the Go layer pre-marks them; not expressible in hook mode)
+var c03WrongLength = map[string]bool{"badsig-length": true, "badsig-nil": true, "badsig-empty": true, "badsig-long": true, "badsig-96": true}
 
 func init() {
 	register(&Prop{
@@ -29,7 +46,7 @@ func init() {
 		PropCheck: "prop_bad_ids",
 		Gen:       c03Gen,
 		Run:       c03Run,
-		Rule:      "hook mode (bls_batch_verify with chosen coefficients): every subset of invalid positions for n up to the tier bound with all coefficients 1, swapped pairs, s_i+d / s_j-d and three-way cancellations inside one subtree and across subtrees, identity keys and signatures, malformed and non-G1 signatures at every position, random seeds, n up to 33; api mode (BatchVerifyBLSSignaturesOneMessage, internal randomness): the same families plus wrong-length signatures, compared index by index with individual verification; typed errors checked by the runner; distinct by input; non-trivial when at least one leaf is invalid or n >= 2",
+		Rule:      "hook mode (bls_batch_verify with chosen coefficients): every subset of invalid positions for n up to the tier bound with all coefficients 1, swapped pairs, s_i+d / s_j-d and three-way cancellations inside one subtree and across subtrees, identity keys and signatures, malformed and non-G1 signatures at every position, random seeds, n up to 33; api mode (BatchVerifyBLSSignaturesOneMessage, internal randomness): the same families plus wrong-length signatures, compared index by index with individual verification; batches of 257 (300) entries with swapped / cancelling pairs at distance 256, 255, 1; added by the generator audit, in both modes where expressible: a batch of one entry of every kind; every kind of invalid entry (wrong well-formed signature, identity key from every constructor, identity signature, identity signature under an identity key, compression flag cleared, s+T, the order-3 point, s + order-3 point, infinity with a stray byte, x = p, x off the curve, lengths nil / 0 / 47 / 49 / 96) at the first, a middle and the last position; random mixtures of all kinds in one batch; batches without a valid entry; key objects from every constructor (decoded, aggregated, removed); the same (key, signature) pair at several indices, a key and its negative, one signature under two keys; hook seeds all 0xff / equal at every index / differing in the last byte; empty tag, nil and long message, fixed-output hashers (all zero, equal halves); the runner checks the typed errors (empty and nil lists, both length mismatches, nil hasher, hashers of size 0/127/129/256, non-BLS key at every index, nil key) alone and together with a short signature or an identity key: documented error, one result per signature, all false; the first result slice is unchanged after later calls, a second call returns the same, keys and signatures are unmodified, no panic; distinct by input; non-trivial when at least one leaf is invalid or n >= 2",
 		Shard:     40,
 	})
 }
@@ -46,10 +63,16 @@ func c03Gen(tier string, r *rand.Rand) []Case {
 		return k.Add(k, big.NewInt(1))
 	}
 	h32 := func(k *big.Int) string { return hx(fixed(new(big.Int).Mod(k, blsR), 32)) }
-	good := func(x *big.Int) c03Leaf { return c03Leaf{"good", h32(x), h32(x)} }
-	off := func(x, d *big.Int) c03Leaf { return c03Leaf{"good", h32(new(big.Int).Add(x, d)), h32(x)} }
+	good := func(x *big.Int) c03Leaf { return c03Leaf{Kind: "good", Sigma: h32(x), X: h32(x)} }
+	off := func(x, d *big.Int) c03Leaf {
+		return c03Leaf{Kind: "good", Sigma: h32(new(big.Int).Add(x, d)), X: h32(x)}
+	}
 	add := func(fam, mode string, lv []c03Leaf, seed []byte) {
-		cs = append(cs, mkcase(fam, c03In{mode, lv, hx(seed), r.Uint64()}))
+		cs = append(cs, mkcase(fam, c03In{Mode: mode, Leaves: lv, Seed: hx(seed), Salt: r.Uint64()}))
+	}
+	addIn := func(fam string, in c03In) {
+		in.Salt = r.Uint64()
+		cs = append(cs, mkcase(fam, in))
 	}
 	zeroSeed := func(n int) []byte { return make([]byte, 16*n) }
 	// exhaustive subsets of invalid positions, all coefficients 1
@@ -87,7 +110,7 @@ func c03Gen(tier string, r *rand.Rand) []Case {
 			i := r.IntN(n - dist)
 			j := i + dist
 			if r.IntN(2) == 0 {
-				lv[i], lv[j] = c03Leaf{"good", h32(xs[j]), h32(xs[i])}, c03Leaf{"good", h32(xs[i]), h32(xs[j])}
+				lv[i], lv[j] = c03Leaf{Kind: "good", Sigma: h32(xs[j]), X: h32(xs[i])}, c03Leaf{Kind: "good", Sigma: h32(xs[i]), X: h32(xs[j])}
 			} else {
 				d := rsc()
 				lv[i], lv[j] = off(xs[i], d), off(xs[j], new(big.Int).Sub(blsR, d))
@@ -120,7 +143,7 @@ func c03Gen(tier string, r *rand.Rand) []Case {
 				case "off":
 					lv = append(lv, off(x, rsc()))
 				default:
-					lv = append(lv, c03Leaf{kinds3[c%len(kinds3)], h32(x), h32(x)})
+					lv = append(lv, c03Leaf{Kind: kinds3[c%len(kinds3)], Sigma: h32(x), X: h32(x)})
 					nbad++
 				}
 				c /= len(kinds3)
@@ -164,7 +187,7 @@ func c03Gen(tier string, r *rand.Rand) []Case {
 			add("cancel-pair-api", "api", lv, nil)
 			// swapped signatures
 			lv = base()
-			lv[i], lv[j] = c03Leaf{"good", h32(xs[j]), h32(xs[i])}, c03Leaf{"good", h32(xs[i]), h32(xs[j])}
+			lv[i], lv[j] = c03Leaf{Kind: "good", Sigma: h32(xs[j]), X: h32(xs[i])}, c03Leaf{Kind: "good", Sigma: h32(xs[i]), X: h32(xs[j])}
 			add("swapped", "hook", lv, zeroSeed(n))
 			add("swapped-api", "api", lv, nil)
 		}
@@ -178,12 +201,12 @@ func c03Gen(tier string, r *rand.Rand) []Case {
 		}
 		// malformed / non-G1 / identity at each position (quick: one position)
 		for pos := 0; pos < n; pos++ {
-			if tier != "thorough" && pos != n/2 {
+			if tier != "thorough" && pos != n/2 && pos != 0 && pos != n-1 {
 				continue
 			}
 			for _, k := range []string{"badsig-header", "badsig-torsion", "idkey"} {
 				lv := base()
-				lv[pos] = c03Leaf{k, h32(xs[pos]), h32(xs[pos])}
+				lv[pos] = c03Leaf{Kind: k, Sigma: h32(xs[pos]), X: h32(xs[pos])}
 				if k == "idkey" {
 					lv[pos].X = h32(big.NewInt(0))
 				}
@@ -191,12 +214,195 @@ func c03Gen(tier string, r *rand.Rand) []Case {
 				add(k+"-api", "api", lv, nil)
 			}
 			lv := base()
-			lv[pos] = c03Leaf{"badsig-length", h32(xs[pos]), h32(xs[pos])}
+			lv[pos] = c03Leaf{Kind: "badsig-length", Sigma: h32(xs[pos]), X: h32(xs[pos])}
 			add("badsig-length-api", "api", lv, nil)
 			lv = base()
-			lv[pos] = c03Leaf{"good", h32(big.NewInt(0)), h32(xs[pos])} // identity signature
+			lv[pos] = c03Leaf{Kind: "good", Sigma: h32(big.NewInt(0)), X: h32(xs[pos])} // identity signature
 			add("identity-signature", "hook", lv, rbytes(r, 16*n))
 			add("identity-signature-api", "api", lv, nil)
+		}
+	}
+	// ---- families added by the generator audit ----
+	allKinds := []string{"good", "off", "idkey", "idsig", "idkey-idsig", "badsig-header", "badsig-torsion", "badsig-order3", "badsig-plus-order3", "badsig-infstray",
+		"badsig-xgep", "badsig-offcurve", "badsig-length", "badsig-nil", "badsig-empty", "badsig-long", "badsig-96"}
+	idSrcs := []string{"", "decoded", "aggregated", "removed"}
+	keySrcs := []string{"", "decoded", "agg-split", "removed", "agg-single", "agg-with-identity"}
+	leafOf := func(kind string, x *big.Int) c03Leaf {
+		switch kind {
+		case "good":
+			return good(x)
+		case "off":
+			return off(x, rsc())
+		case "idkey":
+			return c03Leaf{Kind: "idkey", Sigma: h32(x), X: h32(big.NewInt(0)), Src: idSrcs[r.IntN(len(idSrcs))]}
+		case "idsig":
+			return c03Leaf{Kind: "good", Sigma: h32(big.NewInt(0)), X: h32(x)}
+		case "idkey-idsig":
+			// the identity signature under an identity key: the pairing equation holds trivially, only the
+			// explicit refusal of identity keys makes it invalid
+			return c03Leaf{Kind: "idkey", Sigma: h32(big.NewInt(0)), X: h32(big.NewInt(0)), Src: idSrcs[r.IntN(len(idSrcs))]}
+		}
+		return c03Leaf{Kind: kind, Sigma: h32(x), X: h32(x)}
+	}
+	hookable := func(lv []c03Leaf) bool {
+		for _, l := range lv {
+			if c03WrongLength[l.Kind] {
+				return false
+			}
+		}
+		return true
+	}
+	both := func(fam string, lv []c03Leaf) {
+		if hookable(lv) {
+			add(fam, "hook", lv, rbytes(r, 16*len(lv)))
+		}
+		add(fam+"-api", "api", lv, nil)
+	}
+	// a batch of ONE entry of every kind (the tree is a single leaf)
+	for _, k := range allKinds {
+		both("single-entry", []c03Leaf{leafOf(k, rsc())})
+	}
+	// every kind of invalid entry (also the wrong lengths nil / 0 / 49 / 96, infinity with a stray byte, x = p,
+	// off-curve x, the order-3 point) at the first, a middle and the last position of otherwise valid batches
+	for _, n := range []int{2, 5, 8} {
+		for ki, k := range allKinds[2:] {
+			for pi, pos := range []int{0, n / 2, n - 1} {
+				if tier != "thorough" && (ki+pi)%3 != n%3 {
+					continue
+				}
+				var lv []c03Leaf
+				for i := 0; i < n; i++ {
+					lv = append(lv, good(rsc()))
+				}
+				lv[pos] = leafOf(k, rsc())
+				both("one-invalid-kind", lv)
+			}
+		}
+	}
+	// random mixtures of ALL kinds in one batch
+	nmix := 24
+	if tier == "thorough" {
+		nmix = 400
+	}
+	for i := 0; i < nmix; i++ {
+		n := 2 + r.IntN(9)
+		var lv []c03Leaf
+		for j := 0; j < n; j++ {
+			k := allKinds[r.IntN(len(allKinds))]
+			if r.IntN(3) == 0 {
+				k = "good"
+			}
+			lv = append(lv, leafOf(k, rsc()))
+		}
+		both("all-kinds-mix", lv)
+	}
+	// batches without a single valid entry: all wrong, all malformed, all identity keys (from every constructor),
+	// all identity signatures, all wrong lengths
+	for _, ks := range [][]string{{"off"}, {"badsig-header", "badsig-torsion"}, {"idkey"}, {"idsig"}, {"idkey-idsig"}, {"badsig-nil", "badsig-length", "badsig-long"}, {"idkey", "badsig-nil"}} {
+		for _, n := range []int{2, 3, 5} {
+			if tier != "thorough" && n == 3 {
+				continue
+			}
+			var lv []c03Leaf
+			for i := 0; i < n; i++ {
+				lv = append(lv, leafOf(ks[i%len(ks)], rsc()))
+			}
+			if (ks[0] == "idkey" || ks[0] == "idkey-idsig") && len(ks) == 1 {
+				for i := range lv {
+					lv[i].Src = idSrcs[i%len(idSrcs)]
+				}
+			}
+			both("no-valid-entry", lv)
+		}
+	}
+	// key OBJECTS from every constructor, valid and with one wrong signature; the identity key from every
+	// constructor at every position of a batch of 4
+	{
+		var lv []c03Leaf
+		for _, src := range keySrcs {
+			l := good(rsc())
+			l.Src = src
+			lv = append(lv, l)
+		}
+		both("key-routes", lv)
+		lv2 := append([]c03Leaf{}, lv...)
+		w := off(rsc(), rsc())
+		w.Src = "removed"
+		lv2[2] = w
+		both("key-routes", lv2)
+		for pos, src := range idSrcs {
+			lv := []c03Leaf{good(rsc()), good(rsc()), good(rsc()), good(rsc())}
+			lv[pos] = c03Leaf{Kind: "idkey", Sigma: h32(rsc()), X: h32(big.NewInt(0)), Src: src}
+			both("identity-key-routes", lv)
+			lv = append([]c03Leaf{}, lv...)
+			lv[(pos+1)%4] = off(rsc(), rsc())
+			both("identity-key-routes", lv)
+			lv = append([]c03Leaf{}, lv...)
+			lv[pos].Sigma = h32(big.NewInt(0)) // ... holding the identity signature
+			both("identity-key-routes", lv)
+			both("identity-key-routes", []c03Leaf{lv[pos]})
+			both("identity-key-routes", []c03Leaf{lv[pos], lv[pos]})
+		}
+	}
+	// coincidences: the same (key, signature) pair at several indices, valid and wrong; a key and its negative
+	// with matching signatures (both valid, every aggregate of the two is the identity); the same wrong
+	// signature under two different keys
+	{
+		x, y, d := rsc(), rsc(), rsc()
+		nx := new(big.Int).Sub(blsR, x)
+		both("duplicates", []c03Leaf{good(x), good(x), good(y), good(x)})
+		both("duplicates", []c03Leaf{off(x, d), good(y), off(x, d)})
+		both("negated-pair", []c03Leaf{good(x), good(nx)})
+		both("negated-pair", []c03Leaf{good(y), good(x), good(nx), good(y)})
+		both("negated-pair", []c03Leaf{good(x), off(nx, d), good(y)})
+		both("negated-pair", []c03Leaf{{Kind: "good", Sigma: h32(x), X: h32(nx)}, {Kind: "good", Sigma: h32(nx), X: h32(x)}}) // crossed: both wrong, sum valid
+		both("same-signature-two-keys", []c03Leaf{good(x), {Kind: "good", Sigma: h32(x), X: h32(y)}, good(y)})
+	}
+	// seeds of chosen shape (hook): all 0xff (coefficient 2^128), the same coefficient at every index (a
+	// cancelling pair then fools any aggregate containing both), coefficients differing in the last byte only
+	for _, n := range []int{2, 5, 9} {
+		xs := make([]*big.Int, n)
+		var lv []c03Leaf
+		for i := range xs {
+			xs[i] = rsc()
+			lv = append(lv, good(xs[i]))
+		}
+		d := rsc()
+		lv[0], lv[n-1] = off(xs[0], d), off(xs[n-1], new(big.Int).Sub(blsR, d))
+		ff := make([]byte, 16*n)
+		for i := range ff {
+			ff[i] = 0xff
+		}
+		same := make([]byte, 0, 16*n)
+		one16 := rbytes(r, 16)
+		last := make([]byte, 0, 16*n)
+		for i := 0; i < n; i++ {
+			same = append(same, one16...)
+			l := append([]byte{}, one16...)
+			l[15] += byte(i)
+			last = append(last, l...)
+		}
+		add("seed-shapes", "hook", lv, ff)
+		add("seed-shapes", "hook", lv, same)
+		add("seed-shapes", "hook", lv, last)
+	}
+	// messages and hashers: empty tag, nil / empty / long message, fixed-output hashers (all zero: H is the
+	// image of u = 0; equal halves: the two map_to_curve points coincide)
+	{
+		eq := rbytes(r, 64)
+		variants := []c03In{{Tag: "-"}, {NilMsg: true}, {Msg: hx(rbytes(r, 500))}, {Out: hx(make([]byte, 128))}, {Out: hx(append(append([]byte{}, eq...), eq...))}}
+		for vi, v := range variants {
+			xs := []*big.Int{rsc(), rsc(), rsc()}
+			d := rsc()
+			lv := []c03Leaf{good(xs[0]), off(xs[1], d), good(xs[2])}
+			if vi%2 == 0 {
+				lv[2] = off(xs[2], new(big.Int).Sub(blsR, d))
+			}
+			v.Leaves = lv
+			v.Mode, v.Seed = "hook", hx(make([]byte, 16*len(lv)))
+			addIn("message-hasher", v)
+			v.Mode, v.Seed = "api", ""
+			addIn("message-hasher-api", v)
 		}
 	}
 	for i := 0; i < nrand; i++ {
@@ -222,8 +428,24 @@ func c03Run(c Case) (Result, error) {
 		return Result{}, err
 	}
 	rr := rand.New(rand.NewPCG(in.Salt, 0x03))
-	hs := crypto.NewExpandMsgXOFKMAC128("batch")
+	tag := in.Tag
+	switch tag {
+	case "":
+		tag = "batch"
+	case "-":
+		tag = ""
+	}
+	var hs hash.Hasher = crypto.NewExpandMsgXOFKMAC128(tag)
+	if in.Out != "" {
+		hs = &fixedHasher{unhx(in.Out)}
+	}
 	msg := []byte("c03 message")
+	if in.Msg != "" {
+		msg = unhx(in.Msg)
+	}
+	if in.NilMsg {
+		msg = nil
+	}
 	var pks []crypto.PublicKey
 	var sigs []crypto.Signature
 	var coqL []string
@@ -234,13 +456,21 @@ func c03Run(c Case) (Result, error) {
 		x := new(big.Int).SetBytes(unhx(lf.X))
 		var pk crypto.PublicKey
 		if x.Sign() == 0 {
-			pk = crypto.IdentityBLSPublicKey()
+			var err error
+			if pk, err = c02IdentityKey(lf.Src, rr); err != nil {
+				return Result{}, implViolation("identity key through route %q: %v", lf.Src, err)
+			}
 		} else {
 			sk, err := crypto.DecodePrivateKey(crypto.BLSBLS12381, unhx(lf.X))
 			if err != nil {
 				return Result{}, err
 			}
 			pk = sk.PublicKey()
+			if lf.Src != "" {
+				if pk, err = c01RoutePk(lf.Src, sk, x, rr); err != nil {
+					return Result{}, implViolation("public key through route %q: %v", lf.Src, err)
+				}
+			}
 		}
 		var s []byte
 		if sg.Sign() == 0 {
@@ -259,14 +489,51 @@ func c03Run(c Case) (Result, error) {
 		case "badsig-header":
 			s = append([]byte{}, s...)
 			s[0] &= 0x7F
-			term = fmt.Sprintf("LBadSig %s", cqBigZ(x))
 		case "badsig-torsion":
 			s = e1Compress(e1Add(e1Decompress(s), e1Torsion(rr)))
-			term = fmt.Sprintf("LBadSig %s", cqBigZ(x))
 		case "badsig-length":
 			s = s[:47]
+		case "badsig-nil":
+			s = nil
+		case "badsig-empty":
+			s = []byte{}
+		case "badsig-long":
+			s = append(append([]byte{}, s...), 0)
+		case "badsig-96":
+			s = append(append([]byte{}, s...), s...)
+		case "badsig-order3":
+			s = make([]byte, 48) // the point (0, 2): on the curve, of order 3
+			s[0] = 0x80
+		case "badsig-plus-order3":
+			if P, ok := e1DecompressSafe(s); ok {
+				s = e1Compress(e1Add(P, e1SmallOrder(rr, 3)))
+			} else {
+				s = make([]byte, 48)
+				s[0] = 0x80
+			}
+		case "badsig-infstray":
+			s = make([]byte, 48)
+			s[0] = 0xC0
+			s[1+rr.IntN(47)] = byte(1 + rr.IntN(255))
+		case "badsig-xgep":
+			s = fixed(blsP, 48)
+			s[0] |= 0x80
+		case "badsig-offcurve":
+			for {
+				xx := new(big.Int).Mod(new(big.Int).SetBytes(rbytes(rr, 48)), blsP)
+				if fpSqrt(fpAdd(fpMul(fpMul(xx, xx), xx), e1B)) == nil {
+					s = fixed(xx, 48)
+					s[0] |= 0x80
+					break
+				}
+			}
+		}
+		if lf.Kind != "good" && lf.Kind != "idkey" {
 			term = fmt.Sprintf("LBadSig %s", cqBigZ(x))
-			premarked = true
+			premarked = premarked || c03WrongLength[lf.Kind]
+		}
+		if c03WrongLength[lf.Kind] && in.Mode == "hook" {
+			return Result{}, fmt.Errorf("wrong-length signature in hook mode")
 		}
 		if sg.Cmp(x) != 0 || lf.Kind != "good" {
 			anyInvalid = true
@@ -299,10 +566,24 @@ func c03Run(c Case) (Result, error) {
 		term := fmt.Sprintf("HookCase %s %s %s", cqlist(coqL), cqlist(rhos), cqlist(obs))
 		return Result{Coq: term, Key: string(c.Input), Nontrivial: anyInvalid || n >= 2, Obs: map[string]any{"results": fmt.Sprint(res)}}, nil
 	}
-	out, err := crypto.BatchVerifyBLSSignaturesOneMessage(pks, sigs, msg, hs)
-	if err != nil {
-		return Result{}, err
+	// snapshots: arguments are read only, results are values
+	var pkEnc0, sigs0 [][]byte
+	for i := range pks {
+		pkEnc0 = append(pkEnc0, pks[i].Encode())
+		sigs0 = append(sigs0, append([]byte{}, sigs[i]...))
 	}
+	var out []bool
+	var err error
+	if pn, m := catch(func() { out, err = crypto.BatchVerifyBLSSignaturesOneMessage(pks, sigs, msg, hs) }); pn {
+		return Result{}, implViolation("BatchVerifyBLSSignaturesOneMessage panics on a batch of %d: %s", n, m)
+	}
+	if err != nil {
+		return Result{}, implViolation("BatchVerifyBLSSignaturesOneMessage returns an error on BLS keys, a 128-byte hasher and %d signatures: %v", n, err)
+	}
+	if len(out) != n {
+		return Result{}, implViolation("BatchVerifyBLSSignaturesOneMessage returned %d results for %d signatures", len(out), n)
+	}
+	out0 := append([]bool{}, out...)
 	// typed errors: every returned boolean false
 	allFalse := func(v []bool) bool {
 		for _, b := range v {
@@ -329,6 +610,61 @@ func c03Run(c Case) (Result, error) {
 			return Result{}, implViolation("non-BLS key at index %d of %d: error %v, results %v (documented: notBLSKey error, every result false)", pos, n, e, v)
 		}
 	}
+	// the other documented input errors, each alone (otherwise valid arguments) and together with further
+	// defects of the call: always an error of the documented type, one result per signature, every result false
+	type errCall struct {
+		what string
+		p    []crypto.PublicKey
+		s    []crypto.Signature
+		h    hash.Hasher
+		is   func(error) bool
+	}
+	shortSigs := append([]crypto.Signature{}, sigs...)
+	shortSigs[0] = []byte{0xC0}
+	nilKeys := append([]crypto.PublicKey{}, pks...)
+	nilKeys[n-1] = nil
+	idFirst := append([]crypto.PublicKey{crypto.IdentityBLSPublicKey()}, pks[1:]...)
+	calls := []errCall{
+		{"hasher of size 127", pks, sigs, &fixedHasher{make([]byte, 127)}, crypto.IsInvalidHasherSizeError},
+		{"hasher of size 129", pks, sigs, &fixedHasher{make([]byte, 129)}, crypto.IsInvalidHasherSizeError},
+		{"hasher of size 0", pks, sigs, &fixedHasher{nil}, crypto.IsInvalidHasherSizeError},
+		{"hasher of size 256 and a short signature", pks, shortSigs, &fixedHasher{make([]byte, 256)}, crypto.IsInvalidHasherSizeError},
+		{"nil hasher and an identity key", idFirst, sigs, nil, crypto.IsNilHasherError},
+		{"nil hasher and a short signature", pks, shortSigs, nil, crypto.IsNilHasherError},
+		{"nil key at the last index", nilKeys, sigs, hs, crypto.IsNotBLSKeyError},
+		{"nil key at the last index and a short signature", nilKeys, shortSigs, hs, crypto.IsNotBLSKeyError},
+		{"one key fewer than signatures", pks[:n-1], sigs, hs, func(e error) bool {
+			return (n > 1 && crypto.IsInvalidInputsError(e)) || (n == 1 && crypto.IsBLSAggregateEmptyListError(e))
+		}},
+		{"one signature fewer than keys", pks, sigs[:n-1], hs, crypto.IsInvalidInputsError},
+		{"no signatures", pks, nil, hs, crypto.IsInvalidInputsError},
+		{"no keys", nil, sigs, hs, crypto.IsBLSAggregateEmptyListError},
+		{"no keys, nil hasher", []crypto.PublicKey{}, sigs, nil, func(e error) bool { return crypto.IsBLSAggregateEmptyListError(e) || crypto.IsNilHasherError(e) }},
+	}
+	for _, cl := range calls {
+		var v []bool
+		var e error
+		if pn, m := catch(func() { v, e = crypto.BatchVerifyBLSSignaturesOneMessage(cl.p, cl.s, msg, cl.h) }); pn {
+			return Result{}, implViolation("%s (batch of %d): panic %s", cl.what, n, m)
+		}
+		if e == nil || !cl.is(e) || !allFalse(v) || len(v) != len(cl.s) {
+			return Result{}, implViolation("%s (batch of %d): error %v, results %v (documented: the typed error, %d results, all false)", cl.what, n, e, v, len(cl.s))
+		}
+	}
+	// the result returned first is a value: the calls above must not have changed it; the call is repeatable
+	for i := range out {
+		if out[i] != out0[i] {
+			return Result{}, implViolation("the result slice of an earlier call changed at index %d after later calls (was %v, is %v)", i, out0, out)
+		}
+	}
+	if again, e := crypto.BatchVerifyBLSSignaturesOneMessage(pks, sigs, msg, hs); e != nil || fmt.Sprint(again) != fmt.Sprint(out0) {
+		return Result{}, implViolation("a second call on the same batch of %d returns %v, %v; the first returned %v", n, again, e, out0)
+	}
+	for i := range pks {
+		if !bytes.Equal(pks[i].Encode(), pkEnc0[i]) || !bytes.Equal(sigs[i], sigs0[i]) {
+			return Result{}, implViolation("BatchVerifyBLSSignaturesOneMessage modified its arguments at index %d", i)
+		}
+	}
 	if in.Mode == "api-large" {
 		for i := range out {
 			ind, _ := pks[i].Verify(sigs[i], msg, hs)
@@ -350,6 +686,5 @@ func c03Run(c Case) (Result, error) {
 	term := fmt.Sprintf("ApiCase %s %s %s", cqlist(coqL), cqlist(pre), cqlist(obs))
 	return Result{Coq: term, Key: string(c.Input), Nontrivial: anyInvalid || n >= 2, Obs: map[string]any{"results": fmt.Sprint(out)}}, nil
 }
-
 
 func cqBigZ(x *big.Int) string { return fmt.Sprintf("(%s)%%Z", x.String()) }
